@@ -122,7 +122,9 @@ impl Validator {
                 }
             }
             if self.has_constraint_reference(&key) {
-                match self.tlds.remove(&key).ok_or_else(|| LinkerError {
+                // the definition stays visible while its constraints are linked: a named number of
+                // the type itself must be found in its own list, not in another type's
+                match self.tlds.get(&key).cloned().ok_or_else(|| LinkerError {
                     pdu: Some(key.clone()),
                     details: "Could not find toplevel declaration to remove!".into(),
                     kind: LinkerErrorType::MissingDependency,
